@@ -33,6 +33,9 @@ async def explore(tier, seed):
         if time.time() - t0 > (100 if tier == "quick" else 1500): break
         sg = SchemaGen(rng)
         renv = sg.gen_env(adv=0.05, fail=0.15)
+        # a field whose resolver memoises in the request's context (requests are sent without one: nothing to memoise in)
+        sg.query["fields"].append({"name": "ctxProbe", "args": [], "type": {"n": "String"}})
+        renv["resolvers"]["Query.ctxProbe"] = {"k": "ctxCount"}
         nonintro = si % 3 == 0       # every third schema forbids introspection at schema level
         def model_():
             mdl = sg.model()
@@ -85,6 +88,10 @@ async def explore(tier, seed):
                     pool.append(("frag-retarget", f"{{ {f_['name']} {{ ...Fz }} }}\nfragment Fz on {cond} {{ __typename }}", None, None))
                     pool.append(("frag-retarget", f"{{ {f_['name']} {{ __typename ... on {cond} {{ ...Fz }} }} }}\nfragment Fz on {cond} {{ k: __typename }}", None, None))
                 break
+        # bytes documents that are NOT valid UTF-8 (a latin-1 comment / a stray byte in a name): whatever the uncached engine answers
+        pool.append(("bytes-not-utf8", "{ __typename } # caf\xe9".encode("latin-1"), None, None))
+        pool.append(("bytes-not-utf8", b"{ __typename n\xffme }", None, None))
+        pool.append(("ctx", "{ ctxProbe again: ctxProbe }", None, None)); pool.append(("ctx", "{ __typename ctxProbe }", None, None))
         pool.append(("junk", "", None, None)); pool.append(("junk", "{", None, None))
         # introspection selections under different response keys / positions (refused as a field error when the schema forbids it)
         for q_ in ("{ a: __schema { queryType { name } } }", '{ __typename b: __type(name: "T") { name } }', '{ c: __type(name: "Query") { name } d: __schema { queryType { name } } }'):
